@@ -85,6 +85,36 @@ CLAIMED["C18"] = {
     "note": TB + "; IEEE-754 order-embedding of non-negative doubles into their bit patterns",
     "technique": "Lean 4 proof on bit patterns (constants regenerated from the source) + differential correspondence",
 }
+CLAIMED["C07"] = {
+    "text": "Model of the IVOA ASCII codec (lexer, validation loop, sort + overlap check, per-depth buckets of the writer) and of the FITS range payload. Theorems: reading what the writer emits returns "
+            "the declared depth and the canonical MOC covering exactly the elements, for EVERY list of in-domain non-overlapping elements in any order, every dmax (empty MOC and unoccupied deepest "
+            "level included), every quantity and index width; big-endian words and (start,end) row pairing are inverted exactly; padded data units are whole 2880-byte blocks; NUNIQ code round trip. "
+            "Tied to the code by three correspondences on real bytes (writer text = model text, reader = model reader, FITS data unit = model bytes). Partial: fold widths, offset notation, streaming "
+            "ASCII, JSON, FITS header cards, NUNIQ files and lazy writers are checked by direct round trips on real bytes (test level), not modelled.",
+    "design_ref": "DESIGN.md §4 C07, §10",
+    "note": TB + "; nom/serde_json/byteorder not modelled",
+    "technique": "Lean 4 proof (token-level round trip, byte/row codecs, padding) + differential correspondence on real bytes + direct round-trip checks for the unmodelled options",
+}
+CLAIMED["C12"] = {
+    "text": "Theorems on the ASCII reader model: whatever it accepts has a declared depth within the quantity's maximum, only elements inside the domain of their own depth, pairwise non-overlapping, "
+            "and yields the canonical MOC covering exactly those elements; every number carried by a token (incl. the exclusive end) fits the index type; the reader is total. The real reader is tied to "
+            "the model on thousands of single-field mutations (same verdict and value). Four genuine defects repaired (ASCII: '>' instead of '>=', no depth bound, reversed ranges, end+1 overflow; "
+            "JSON: no index bound). Partial: totality of the real FITS / stream / JSON readers is mutation-fuzzed (panics reported), not proved; MOM / skymap readers and store loaders are not driven.",
+    "design_ref": "DESIGN.md §4 C12, §10",
+    "note": TB + "; totality of Rust decoders is tested, not proved",
+    "technique": "Lean 4 proof (validity of accepted documents, overflow freedom) + differential correspondence on mutated documents + mutation fuzzing of the unmodelled decoders",
+}
+CLAIMED["C13"] = {
+    "text": "Transliterated model of the slab (entries + free list) and of store.rs (add / copy_moc / drop / read phase + write phase of op1, op2, opn). Theorems: every call and every history "
+            "from the empty store REFINES a reference registry (partial map index -> (count, value), fresh index = any non-live index, copy +1 up to 255, drop -1 and removal at 0, operations = "
+            "library function of the operands' values, dead index -> error) with the slab invariant preserved; an index handed out is never live; an index denotes the same MOC along every history "
+            "that does not drop it; n drops of a count-c entry; two-phase operations are atomic when operands are not dropped in between; EVERY interleaving of lock sections of any number of threads "
+            "gives each call the output of the sequential execution in completion order (linearizability in the lock-section model). Partial: absence of deadlock / poisoning depends on the lock "
+            "implementation and is exercised by real threads under a watchdog (test level); ST entries and geometry constructors are outside the modelled population.",
+    "design_ref": "DESIGN.md §4 C13, §10",
+    "note": TB + "; slab crate modelled not verified; RwLock sections assumed atomic",
+    "technique": "Lean 4 proof (refinement to an abstract registry + interleaving theorem) + differential correspondence on a long sequential history + threaded stress run with watchdog",
+}
 CLAIMED["C17"] = {
     "text": "Time/Frequency: theorem tf_expanded_sem (for every valid MOC the expansion is canonical and covers exactly the cells equal or adjacent to a cell of M, clipped to the "
             "domain), theorem tf_contracted_range (repaired contraction, range by range), a proved counterexample for the original formula; the definition "
